@@ -34,7 +34,10 @@ type ngapCase struct {
 	// Log: logrus level of the APER library's logger while the case is evaluated ("" = its default, info). The
 	// emulator never changes it; the bytes must not depend on it all the same.
 	Log string `json:"aper_log_level,omitempty"`
-	live  interface{}
+	// Shared: list elements that were built as copies of their predecessor, sharing the pointers inside (restored after
+	// a round trip through the JSON form of the case: equal neighbours are made copies of each other again)
+	Shared int `json:"shared_subobjects,omitempty"`
+	live   interface{}
 }
 
 var (
@@ -71,8 +74,37 @@ func (c *ngapCase) value() interface{} {
 	if err := json.Unmarshal(c.Val, p.Interface()); err != nil {
 		panic("case value does not parse: " + err.Error())
 	}
+	if c.Shared > 0 {
+		shareEqualNeighbours(p.Elem())
+	}
 	c.live = p.Elem().Interface()
 	return c.live
+}
+
+// shareEqualNeighbours: wherever an element of a list of structs equals its predecessor it becomes a copy of it, so
+// that the pointers inside are shared as they were when the case was generated.
+func shareEqualNeighbours(v reflect.Value) {
+	switch v.Kind() {
+	case reflect.Ptr, reflect.Interface:
+		if !v.IsNil() {
+			shareEqualNeighbours(v.Elem())
+		}
+	case reflect.Struct:
+		for i := 0; i < v.NumField(); i++ {
+			shareEqualNeighbours(v.Field(i))
+		}
+	case reflect.Slice:
+		if v.Type().Elem().Kind() == reflect.Uint8 {
+			return
+		}
+		for i := 0; i < v.Len(); i++ {
+			if i > 0 && v.Type().Elem().Kind() == reflect.Struct && reflect.DeepEqual(v.Index(i).Interface(), v.Index(i-1).Interface()) {
+				v.Index(i).Set(v.Index(i - 1))
+				continue
+			}
+			shareEqualNeighbours(v.Index(i))
+		}
+	}
 }
 
 func newNgapCase(entry string, v interface{}) ngapCase {
@@ -129,6 +161,7 @@ func genNgapCase(t *rapid.T, allowFragment bool) ngapCase {
 		}
 		c.Ext = g.ExtOutside
 		c.Dirty = g.DirtyBits
+		c.Shared = g.Shared
 		c.Log = rapid.SampledFrom([]string{"", "", "", "", "", "", "debug", "trace", "error"}).Draw(t, "aper_log_level")
 		if rapid.IntRange(0, 2).Draw(t, "hostile") == 0 {
 			c.Hostile = rapid.IntRange(1, 4).Draw(t, "hostile_n")
